@@ -963,9 +963,10 @@ where
                         barrier.wait();
                         let r = std::panic::catch_unwind(std::panic::AssertUnwindSafe(|| {
                             let mut o = vec![0u8; 40];
-                            if t % 2 == 0 {
-                                // receivers share the private key object (and its clone), the encapsulated key and the mode
-                                let key = if t % 4 == 0 { sk } else { sk2 };
+                            if t % 3 != 2 {
+                                // receivers share ONE private key object (every second round: one clone of it, made
+                                // before any use), the encapsulated key and the mode
+                                let key = if round % 2 == 0 { sk } else { sk2 };
                                 match hpke::setup_receiver::<A, D, K>(mr, key, enc, &fx.info) {
                                     Ok(ctx) => {
                                         ctx.export(b"e3", &mut o).unwrap();
@@ -1018,7 +1019,7 @@ impl Part for SharedObjects {
         "SUPPORTING PASS, SAMPLING (not exhaustive, decides nothing on its own): real threads released by a barrier call setup_receiver / setup_sender on ONE freshly deserialized private key / public key / encapsulated key / mode object shared by reference, many rounds; a result that differs from R1 is a violation, silence proves nothing. It exists because the controlled scheduler can only preempt at scheduling points, and state hidden inside a key object between two points (e.g. a lazily filled cache) has none".into()
     }
     fn bound(&self, _cfg: &Cfg) -> String {
-        "4 threads x rounds per KEM (X25519, P-256, P-384, P-521); schedules are whatever the OS produces".into()
+        "6 threads (4 receivers on one key object, 2 senders on one public key object) x rounds per KEM (X25519, P-256, P-384, P-521); schedules are whatever the OS produces".into()
     }
     fn exhaustive(&self) -> bool {
         false
@@ -1032,10 +1033,10 @@ impl Part for SharedObjects {
     fn enumerate(&self, cfg: &Cfg) -> Vec<StressCase> {
         let t = cfg.tier.thorough();
         vec![
-            StressCase { kem: Kem::X25519, rounds: if t { 2000 } else { 300 }, threads: 4 },
-            StressCase { kem: Kem::P256, rounds: if t { 1500 } else { 200 }, threads: 4 },
-            StressCase { kem: Kem::P384, rounds: if t { 300 } else { 40 }, threads: 4 },
-            StressCase { kem: Kem::P521, rounds: if t { 200 } else { 30 }, threads: 4 },
+            StressCase { kem: Kem::X25519, rounds: if t { 2000 } else { 300 }, threads: 6 },
+            StressCase { kem: Kem::P256, rounds: if t { 1500 } else { 200 }, threads: 6 },
+            StressCase { kem: Kem::P384, rounds: if t { 300 } else { 40 }, threads: 6 },
+            StressCase { kem: Kem::P521, rounds: if t { 200 } else { 30 }, threads: 6 },
         ]
     }
     fn run(&self, cfg: &Cfg, c: &StressCase) -> CaseOut {
